@@ -88,6 +88,15 @@ class Check:
             self.undecided(rule, fn, construct, "idiom not recognised: " + bad, loc)
         return bool(cond)
 
+    def expect(self, cond: bool | None, rule: str, fn: FuncInfo | str, construct: str, bad: str, loc: str = "", good: str = "") -> bool:
+        """Shape check: a recognised idiom discharges the obligation; anything else is UNDECIDED, never a violation
+        (used where the test is a match on how the code is written rather than positive evidence of breakage)."""
+        if cond:
+            self.ok(rule, fn, construct, good, loc)
+        else:
+            self.undecided(rule, fn, construct, "idiom not recognised: " + bad, loc)
+        return bool(cond)
+
     def note(self, text: str) -> None:
         self.notes.append(text)
 
